@@ -592,3 +592,19 @@ Proof.
   exists w_users, [[("nick", GNil)]; [("id", GInt KI64 "" 20)]], w_contents.
   repeat split; try reflexivity. vm_compute. discriminate.
 Qed.
+
+(** * Which calls are batched at all *)
+
+(** A call that carries SelectOptions is answered by a statement of its own -- with its own LIMIT, ORDER BY,
+    free text, lock and index hints -- on every context: only [Options == nil] reaches the batch function. *)
+Theorem options_own_statement : forall h t c f o w,
+  make_where t f = Some w -> check_filter_limits h f = true ->
+  run h t c (OQuery f (Some o))
+  = ([EStmt (SSelect (t_name t) (col_names t) (WSimple w) (Some o))], Proceeds).
+Proof. intros h t c f o w Hw Hc. simpl. rewrite Hw, Hc. reflexivity. Qed.
+
+(** Without options, outside a transaction and on a batching context, the call goes to the batch function. *)
+Theorem no_options_batched : forall h t f w,
+  make_where t f = Some w -> check_filter_limits h f = true ->
+  run h t (mk_ctx false true) (OQuery f None) = ([EStmt (batch_stmt t [f])], Proceeds).
+Proof. intros h t f w Hw Hc. simpl. rewrite Hw, Hc. reflexivity. Qed.
